@@ -63,7 +63,7 @@ func bigs(hs []H) []*big.Int {
 // B is a byte string carried as hex in JSON cases.
 type B string
 
-func bx(b []byte) B     { return B(hex.EncodeToString(b)) }
+func bx(b []byte) B { return B(hex.EncodeToString(b)) }
 func (b B) Bytes() []byte {
 	out, err := hex.DecodeString(string(b))
 	if err != nil {
@@ -167,7 +167,6 @@ func mustNoPanic(f func()) (panicked interface{}) {
 	f()
 	return nil
 }
-
 
 func refTorsion(i int) [2]*big.Int {
 	tp := ref.Ed.Torsion()[i%8]
